@@ -452,6 +452,23 @@ func countedLoops(fn *ssa.Function) (out []struct {
 			if !ok {
 				continue
 			}
+			// "for i := range n" is lowered as a rotated loop: the test is on i+1 at the bottom, with 0 < n checked
+			// once before entering
+			if init == 0 && inc == 1 && bo.Referrers() != nil {
+				for _, ref := range *bo.Referrers() {
+					cmp, ok := ref.(*ssa.BinOp)
+					if !ok || cmp.X != ssa.Value(bo) || cmp.Op.String() != "<" {
+						continue
+					}
+					if rotatedEntryGuard(b, cmp.Y) {
+						out = append(out, struct {
+							phi   *ssa.Phi
+							bound ssa.Value
+							hdr   *ssa.BasicBlock
+						}{phi, cmp.Y, b})
+					}
+				}
+			}
 			for _, ref := range *phi.Referrers() {
 				cmp, ok := ref.(*ssa.BinOp)
 				if !ok || cmp.X != ssa.Value(phi) {
@@ -989,6 +1006,25 @@ func intOfParam(p *Prog, v ssa.Value, name string, depth int) bool {
 			}
 		}
 		return n > 0
+	}
+	return false
+}
+
+// rotatedEntryGuard: the loop whose header is h is entered only under "0 < bound" (the pre-check of a rotated
+// counted loop such as the lowering of "for i := range n").
+func rotatedEntryGuard(h *ssa.BasicBlock, bound ssa.Value) bool {
+	for d := h.Idom(); d != nil; d = d.Idom() {
+		iff, ok := d.Instrs[len(d.Instrs)-1].(*ssa.If)
+		if !ok {
+			continue
+		}
+		cmp, ok := iff.Cond.(*ssa.BinOp)
+		if !ok || cmp.Y != bound || cmp.Op.String() != "<" {
+			continue
+		}
+		if k, ok := constInt(cmp.X); ok && k == 0 && iff.Block().Succs[0].Dominates(h) {
+			return true
+		}
 	}
 	return false
 }
